@@ -199,6 +199,10 @@ def _moved(key, m, table, mod_of):
     """a triaged construct that moved into another function of the same module (extract-helper) is the same site"""
     if key in table:
         return key
+    # a triaged construct of a function that no longer exists (merged into its caller and deleted) is the same site, found in the caller
+    for (f, sh) in table:
+        if sh == key[1] and f not in mod_of and f"{m.rel}:{f}" in _INV:
+            return (f, sh)
     if f"{m.rel}:{key[0]}" in _INV:
         return key          # a function of the reference tree: its sites were triaged one by one, nothing moved here
     for (f, sh) in table:
